@@ -2,6 +2,6 @@
 EXTENDS Codec
 AllT == AllTypes
 CodecsAll == {"bytes", "bare", "json"}
-VQ == {"generic", "identity", "scalar1", "scalar_rm1", "empty", "large", "id1", "id255"}
+VQ == {"generic", "identity", "scalar1", "scalar_rm1", "scalar80", "empty", "one", "large", "id1", "id255"}
 NoDev == {}
 =============================================================================
